@@ -8,6 +8,7 @@ import SlotVerif.Proofs.Add
 import SlotVerif.Proofs.AddGroup
 import SlotVerif.Proofs.AddSeq
 import SlotVerif.Proofs.AddInv
+import SlotVerif.Proofs.ShapeBij
 import SlotVerif.Props.C16
 /-!
 # C09 — Insertion is canonical: known terms create nothing, lookup agrees with add
@@ -311,6 +312,21 @@ theorem insertion_disturbs_no_old_class {s s' : Snap} {n syn : Node} {f2o : Slot
     (Snap.sortedStrict c.slots && Snap.leaderOK s' c && Snap.gensOK c && c.nodes.all (Snap.nodeOK c) &&
       Snap.childrenOK s' c) = true :=
   Snap.add_keeps_old_class_inv hok h hc hinv
+
+/-- **every stored bijection is a well-formed injective map after an insertion**, whenever that held before: the entry of the new class
+is `weakShape` of a node, and the bijection `weak_shape` returns is well formed and injective for every node
+(`Node.weakShape_bij_ok`) — the first two conjuncts of `nodeOK` -/
+theorem insertion_stores_a_bijection {s s' : Snap} {n syn : Node} {f2o : SlotMap} {data : String} {a : AppId}
+    (hok : Snap.AddOK s)
+    (hb : ∀ c ∈ s.classes, ∀ e ∈ c.nodes, SlotMap.wfb e.2 = true ∧ SlotMap.isBijection e.2 = true)
+    (h : Snap.addNew s n f2o syn data = some (s', a)) :
+    ∀ c ∈ s'.classes, ∀ e ∈ c.nodes, SlotMap.wfb e.2 = true ∧ SlotMap.isBijection e.2 = true := by
+  intro c hc e he
+  rcases Snap.add_nodes hok h hc with hold | ⟨n1, hn, _⟩
+  · exact hb c hold e he
+  · rw [hn, List.mem_singleton] at he
+    subst he
+    exact Node.weakShape_bij_ok n1
 
 /-- non-vacuity: on the empty e-graph the node `f2($8, $12)` (variant 7, two slot fields) is a miss; with the fresh slots
 `101, 105` handed in, the model allocates class 0 -/
